@@ -967,3 +967,7 @@ Lemma l2_key_assumption_needed :
   o_pub o = false /\ o_pos o = (361, 7, 31) /\ o_key o = Ok tnokey /\ tnokey <> tkey 1 0 361 7 31.
 Proof. vm_compute. repeat split. discriminate. Qed.
 End ToyD13.
+
+(* the async public functions are the sync ones up to await and the async helpers *)
+Lemma public_twins : twin_ncrypt_unprotect_secret = true /\ twin_ncrypt_protect_secret = true.
+Proof. split; reflexivity. Qed.
